@@ -13,6 +13,11 @@
 
 package io
 
+import (
+	"strings"
+	"unicode/utf8"
+)
+
 // errorEncoder is the implementation of ValueEncoder for error/*error.
 type errorEncoder struct{}
 
@@ -33,6 +38,11 @@ func (errorEncoder) Write(enc *Encoder, v interface{}) {
 func (enc *Encoder) WriteError(e error) {
 	enc.AddReferenceCount(1)
 	s := e.Error()
+	if !utf8.ValidString(s) {
+		// the error tag is followed by a string: a message that is not text cannot fall
+		// back to the bytes form, its invalid sequences are replaced instead
+		s = strings.ToValidUTF8(s, "\uFFFD")
+	}
 	enc.buf = append(enc.buf, TagError)
 	enc.buf = appendString(enc.buf, s, utf16Length(s))
 }
